@@ -100,7 +100,8 @@ include hpre
 theorem process_cf_dir (hC : CfCtx s p snap o) (st : ISt) {x : Entry} (hx : alLookup x.path s.entries = some x)
     (hpx : p <+: x.path) (hd : x.dir = true) (hl : x.link = false) (hdepth : st.iters.length < o.maxDepth) (w : σ) :
     process snap o pre st x w =
-      (none, { st with iters := ⟨x.path, true, cfItems s x⟩ :: st.iters, deferred := x :: st.deferred }, gPre x w) := by
+      (none, { st with iters := ⟨x.path, true, cfItems s x⟩ :: st.iters,
+                       deferred := (st.iters.length, x) :: st.deferred }, gPre x w) := by
   unfold process
   simp only [hd, hl, Bool.not_false, true_or, and_self, if_true, Bool.false_eq_true, false_and, if_false, hdepth, hpre,
     mkIter_cf hC hx hpx, hC.sorted, hC.minDepth, Nat.not_lt_zero, hC.cf, hC.files, hC.dirs, and_false, or_self]
@@ -108,7 +109,7 @@ theorem process_cf_dir (hC : CfCtx s p snap o) (st : ISt) {x : Entry} (hx : alLo
 omit hpre in
 /-- a link to a directory: not descended into, deferred -/
 theorem process_cf_dirlink (hC : CfCtx s p snap o) (st : ISt) {x : Entry} (hd : x.dir = true) (hl : x.link = true)
-    (w : σ) : process snap o pre st x w = (none, { st with deferred := x :: st.deferred }, w) := by
+    (w : σ) : process snap o pre st x w = (none, { st with deferred := (st.iters.length, x) :: st.deferred }, w) := by
   unfold process
   simp only [hd, hl, Bool.not_true, hC.follow, Bool.false_eq_true, or_self, and_false, if_false, hC.minDepth,
     Nat.not_lt_zero, hC.cf, and_self, if_true, hC.files, hC.dirs, false_and]
@@ -125,42 +126,68 @@ end proc
 
 /-! #### `nextLoop` with `contents_first` -/
 
+/-- the depths recorded in the deferred stack (`min_depth = 0`): the directory found at depth `i`
+    is the `i`-th from the bottom -/
+def DepthsOk : List (Nat × Entry) → Prop
+  | [] => True
+  | (d, _) :: ds => d = ds.length ∧ DepthsOk ds
+
+/-- with these depths the release test of the repaired `next()` is the old one: the stack of
+    open directories is lower than the deferred stack -/
+theorem ready_eq {df : List (Nat × Entry)} (h : DepthsOk df) (n : Nat) :
+    deferredReady n df = decide (n < df.length) := by
+  cases df with
+  | nil => simp [deferredReady]
+  | cons d ds =>
+    obtain ⟨dd, de⟩ := d
+    obtain ⟨h1, _⟩ := h
+    simp only [deferredReady, List.length_cons, h1]
+    congr 1
+    exact propext ⟨fun h => by omega, fun h => by omega⟩
+
 theorem nlc_def {σ} (hcf : o.contentsFirst = true) (pre : Entry → σ → Outcome Unit × σ) (g : Nat) (st : ISt) (w : σ)
-    {d : Entry} {ds : List Entry} (h : st.iters.length < st.deferred.length) (hd : st.deferred = d :: ds) :
-    nextLoop snap o pre (g + 1) st w = (some (.ok d), { st with deferred := ds }, w) := by
+    {d : Nat × Entry} {ds : List (Nat × Entry)} (hk : DepthsOk st.deferred)
+    (h : st.iters.length < st.deferred.length) (hd : st.deferred = d :: ds) :
+    nextLoop snap o pre (g + 1) st w = (some (.ok d.2), { st with deferred := ds }, w) := by
+  have hr := ready_eq hk st.iters.length
+  rw [decide_eq_true h, hd] at hr
   rw [nextLoop]
   cases hi : st.iters with
   | nil =>
-    rw [hi, hd] at h
-    simp only [hcf, h, and_self, if_true, hd]
+    simp only [hcf, if_true, hd]
   | cons top below =>
-    rw [hi, hd] at h
-    simp only [hcf, h, and_self, if_true, hd]
+    rw [hi] at hr
+    simp only [hcf, hd, hr, and_self, if_true]
 
 theorem nlc_nil {σ} (pre : Entry → σ → Outcome Unit × σ) (g : Nat) (st : ISt) (w : σ)
     (hi : st.iters = []) (hd : st.deferred = []) : nextLoop snap o pre (g + 1) st w = (none, st, w) := by
   rw [nextLoop]
-  simp only [hi, hd, List.length_nil, Nat.lt_irrefl, and_false, if_false]
+  simp only [hi, hd]
+  split <;> rfl
 
 theorem nlc_pop {σ} (pre : Entry → σ → Outcome Unit × σ) (g : Nat) (st : ISt) (w : σ)
-    {top : EIter} {below : List EIter} (hi : st.iters = top :: below) (h : ¬ st.iters.length < st.deferred.length)
+    {top : EIter} {below : List EIter} (hk : DepthsOk st.deferred) (hi : st.iters = top :: below)
+    (h : ¬ st.iters.length < st.deferred.length)
     (ht : top.items = []) :
     nextLoop snap o pre (g + 1) st w =
       nextLoop snap o pre g { st with iters := below, openDesc := if top.cached then st.openDesc else st.openDesc - 1 } w := by
+  have hr := ready_eq hk st.iters.length
+  rw [decide_eq_false h, hi] at hr
   rw [nextLoop]
-  rw [hi] at h
-  simp only [hi, h, and_false, if_false, ht]
+  simp only [hi, hr, Bool.false_eq_true, and_false, if_false, ht]
 
 theorem nlc_item {σ} (pre : Entry → σ → Outcome Unit × σ) (g : Nat) (st : ISt) (w : σ)
-    {top : EIter} {below : List EIter} {x : Entry} {xs : List Entry} (hi : st.iters = top :: below)
+    {top : EIter} {below : List EIter} {x : Entry} {xs : List Entry} (hk : DepthsOk st.deferred)
+    (hi : st.iters = top :: below)
     (h : ¬ st.iters.length < st.deferred.length) (ht : top.items = x :: xs) :
     nextLoop snap o pre (g + 1) st w =
       match process snap o pre { st with iters := { top with items := xs } :: below } (x.doFollow o.follow) w with
       | (some r, st2, w2) => (some r, st2, w2)
       | (none, st2, w2) => nextLoop snap o pre g st2 w2 := by
+  have hr := ready_eq hk st.iters.length
+  rw [decide_eq_false h, hi] at hr
   rw [nextLoop]
-  rw [hi] at h
-  simp only [hi, h, and_false, if_false, ht]
+  simp only [hi, hr, Bool.false_eq_true, and_false, if_false, ht]
   rfl
 
 /-! #### invariant, remaining keys, potential -/
@@ -168,13 +195,15 @@ theorem nlc_item {σ} (pre : Entry → σ → Outcome Unit × σ) (g : Nat) (st 
 structure CfInv (s : State) (p : FsPath) (st : ISt) : Prop where
   started : st.started = true
   stack : StackOk s p st.iters
-  defOk : ∀ d ∈ st.deferred, ItemOk s p d
+  defOk : ∀ d ∈ st.deferred.map (·.2), ItemOk s p d
+  stk : DepthsOk st.deferred
   len : st.deferred.length = st.iters.length ∨ st.deferred.length = st.iters.length + 1
 
 /-- `k` is live and at or below the item `x` -/
 def Cov (s : State) (x : Entry) (k : FsPath) : Prop := x.path <+: k ∧ (alLookup k s.entries).isSome
 
-def RemCf (s : State) (st : ISt) (k : FsPath) : Prop := RemK s st.iters k ∨ ∃ d ∈ st.deferred, d.path = k
+def RemCf (s : State) (st : ISt) (k : FsPath) : Prop :=
+  RemK s st.iters k ∨ ∃ d ∈ st.deferred.map (·.2), d.path = k
 
 def potCf (s : State) (st : ISt) : Nat := 3 * remSize s st.iters + st.iters.length + st.deferred.length
 
@@ -241,8 +270,10 @@ theorem nextLoop_cf (hC : CfCtx s p snap o) : ∀ (g : Nat) (st : ISt) (w : σ),
       | nil => rw [hd] at hlt; simp at hlt
       | cons d ds =>
         right
-        refine ⟨[], d, { st with deferred := ds }, nlc_def hC.cf pre g st w hlt hd, by simp,
-          ⟨hI.started, hI.stack, fun x hx => hI.defOk x (by rw [hd]; simp [hx]), ?_⟩, ?_, hI.defOk d (by rw [hd]; simp), ?_⟩
+        refine ⟨[], d.2, { st with deferred := ds }, nlc_def hC.cf pre g st w hI.stk hlt hd, by simp,
+          ⟨hI.started, hI.stack, fun x hx => hI.defOk x (by rw [hd]; simp only [List.map_cons]; exact List.mem_cons_of_mem _ hx),
+            (by have := hI.stk; rw [hd] at this; exact this.2), ?_⟩, ?_,
+          hI.defOk d.2 (by rw [hd]; simp), ?_⟩
         · have := hI.len
           rw [hd] at this hlt
           simp only [List.length_cons] at this hlt ⊢
@@ -251,7 +282,7 @@ theorem nextLoop_cf (hC : CfCtx s p snap o) : ∀ (g : Nat) (st : ISt) (w : σ),
         · intro k
           unfold RemCf
           rw [hd]
-          simp only [List.mem_cons, exists_eq_or_imp]
+          simp only [List.map_cons, List.mem_cons, exists_eq_or_imp]
           (try grind)
     · have hlen : st.deferred.length = st.iters.length := by
         rcases hI.len with h | h
@@ -274,9 +305,9 @@ theorem nextLoop_cf (hC : CfCtx s p snap o) : ∀ (g : Nat) (st : ISt) (w : σ),
         cases hti : top.items with
         | nil =>
           -- drop the exhausted iterator
-          rw [nlc_pop pre g st w hi hlt hti]
+          rw [nlc_pop pre g st w hI.stk hi hlt hti]
           have hI1 : CfInv s p { st with iters := below, openDesc := if top.cached then st.openDesc else st.openDesc - 1 } :=
-            ⟨hI.started, hstk.2, hI.defOk, Or.inr (by rw [hlen, hi]; rfl)⟩
+            ⟨hI.started, hstk.2, hI.defOk, hI.stk, Or.inr (by rw [hlen, hi]; rfl)⟩
           have hpot : potCf s { st with iters := below, openDesc := if top.cached then st.openDesc else st.openDesc - 1 } + 1
               = potCf s st := by
             unfold potCf
@@ -291,7 +322,7 @@ theorem nextLoop_cf (hC : CfCtx s p snap o) : ∀ (g : Nat) (st : ISt) (w : σ),
           · exact Or.inl ⟨st', h1, fun k hk => h2 k ((hrem k).1 hk)⟩
           · exact Or.inr ⟨pres, y, st', h1, h2, h3, by omega, h5, fun k => (hrem k).trans (h6 k)⟩
         | cons x xs =>
-          rw [nlc_item pre g st w hi hlt hti, hC.follow, doFollow_false]
+          rw [nlc_item pre g st w hI.stk hi hlt hti, hC.follow, doFollow_false]
           have hxo := hstk.1 x (by rw [hti]; simp)
           have hxsok : ∀ y ∈ xs, ItemOk s p y ∧ y.path.length = p.length + below.length + 1 :=
             fun y hy => hstk.1 y (by rw [hti]; simp [hy])
@@ -310,7 +341,7 @@ theorem nextLoop_cf (hC : CfCtx s p snap o) : ∀ (g : Nat) (st : ISt) (w : σ),
             -- yielded at once
             rw [process_cf_leaf pre hC _ hxd w]
             right
-            refine ⟨[], x, _, rfl, by simp, ⟨hI.started, ⟨hxsok, hstk.2⟩, hI.defOk, Or.inl (by rw [hlen, hi]; rfl)⟩, ?_,
+            refine ⟨[], x, _, rfl, by simp, ⟨hI.started, ⟨hxsok, hstk.2⟩, hI.defOk, hI.stk, Or.inl (by rw [hlen, hi]; rfl)⟩, ?_,
               hxo.1, ?_⟩
             · unfold potCf; rw [hrs]; simp only [remSize, hi, List.length_cons]; omega
             · intro k
@@ -322,21 +353,22 @@ theorem nextLoop_cf (hC : CfCtx s p snap o) : ∀ (g : Nat) (st : ISt) (w : σ),
               -- a link to a directory: deferred, and yielded by the next iteration
               rw [process_cf_dirlink pre hC _ hxd hxl w]
               dsimp only
-              have hI2 : CfInv s p { st with iters := { top with items := xs } :: below, deferred := x :: st.deferred } :=
+              have hI2 : CfInv s p { st with iters := { top with items := xs } :: below, deferred := (({ top with items := xs } :: below).length, x) :: st.deferred } :=
                 ⟨hI.started, ⟨hxsok, hstk.2⟩, fun d hd => by
                     rcases List.mem_cons.1 hd with rfl | h
                     · exact hxo.1
                     · exact hI.defOk d h,
+                  ⟨by simp only [List.length_cons]; rw [hlen, hi]; rfl, hI.stk⟩,
                   Or.inr (by simp only [List.length_cons]; rw [hlen, hi]; rfl)⟩
-              have hpot2 : potCf s { st with iters := { top with items := xs } :: below, deferred := x :: st.deferred } + 1
+              have hpot2 : potCf s { st with iters := { top with items := xs } :: below, deferred := (({ top with items := xs } :: below).length, x) :: st.deferred } + 1
                   ≤ potCf s st := by
                 unfold potCf; rw [hrs]; simp only [remSize, hi, List.length_cons]; omega
               have hrem2 : ∀ k, RemCf s st k ↔
-                  RemCf s { st with iters := { top with items := xs } :: below, deferred := x :: st.deferred } k := by
+                  RemCf s { st with iters := { top with items := xs } :: below, deferred := (({ top with items := xs } :: below).length, x) :: st.deferred } k := by
                 intro k
                 rw [hrem1 k, cov_item hC.inv hxo.1 k]
                 unfold RemCf
-                simp only [hxl, Bool.true_eq_false, false_and, and_false, or_false, List.mem_cons, exists_eq_or_imp]
+                simp only [hxl, Bool.true_eq_false, false_and, and_false, or_false, List.map_cons, List.mem_cons, exists_eq_or_imp]
                 (try grind)
               rcases ih _ w hI2 (by omega) with ⟨st', _, h2⟩ | ⟨pres, y, st', h1, h2, h3, h4, h5, h6⟩
               · exact absurd (Or.inr ⟨x, by simp, rfl⟩) (h2 x.path)
@@ -349,7 +381,7 @@ theorem nextLoop_cf (hC : CfCtx s p snap o) : ∀ (g : Nat) (st : ISt) (w : σ),
               dsimp only
               have hI2 : CfInv s p { st with
                   iters := ⟨x.path, true, cfItems s x⟩ :: { top with items := xs } :: below,
-                  deferred := x :: st.deferred } :=
+                  deferred := (({ top with items := xs } :: below).length, x) :: st.deferred } :=
                 ⟨hI.started,
                   ⟨fun y hy => by
                       obtain ⟨h1, h2⟩ := itemOk_kid hC.inv hxo.1 (mem_cfItems.1 hy)
@@ -359,20 +391,21 @@ theorem nextLoop_cf (hC : CfCtx s p snap o) : ∀ (g : Nat) (st : ISt) (w : σ),
                     rcases List.mem_cons.1 hd with rfl | h
                     · exact hxo.1
                     · exact hI.defOk d h,
+                  ⟨by simp only [List.length_cons]; rw [hlen, hi]; rfl, hI.stk⟩,
                   Or.inl (by simp only [List.length_cons]; rw [hlen, hi]; rfl)⟩
               have hsz := kidEntries_size hC.inv hxo.1.1
               have hpot2 : potCf s { st with
                   iters := ⟨x.path, true, cfItems s x⟩ :: { top with items := xs } :: below,
-                  deferred := x :: st.deferred } + 1 ≤ potCf s st := by
+                  deferred := (({ top with items := xs } :: below).length, x) :: st.deferred } + 1 ≤ potCf s st := by
                 unfold potCf; rw [hrs]
                 simp only [remSize, hi, List.length_cons, itemsSize_cfItems]; omega
               have hrem2 : ∀ k, RemCf s st k ↔ RemCf s { st with
                   iters := ⟨x.path, true, cfItems s x⟩ :: { top with items := xs } :: below,
-                  deferred := x :: st.deferred } k := by
+                  deferred := (({ top with items := xs } :: below).length, x) :: st.deferred } k := by
                 intro k
                 rw [hrem1 k, cov_item hC.inv hxo.1 k]
                 unfold RemCf
-                simp only [hxd, hxl, true_and, remK_cons, List.mem_cons, exists_eq_or_imp, mem_cfItems]
+                simp only [hxd, hxl, true_and, remK_cons, List.map_cons, List.mem_cons, exists_eq_or_imp, mem_cfItems]
                 (try grind)
               rcases ih _ (gPre x w) hI2 (by omega) with ⟨st', _, h2⟩ | ⟨pres, y, st', h1, h2, h3, h4, h5, h6⟩
               · exact absurd (Or.inr ⟨x, by simp, rfl⟩) (h2 x.path)
@@ -470,7 +503,7 @@ theorem runIter_cf_root (hC : CfCtx s p snap o) {e : Entry} (he : alLookup p s.e
     rw [runIter_yield pre e stepF F' {} _ w w _ e hnext (hstep e w)]
     obtain ⟨acts', a1, a2, a3⟩ := runIter_cf_started pre gPre hpre gStep stepF hstep hC e F'
       { ({} : ISt) with started := true } (gStep e w)
-      ⟨rfl, trivial, (by intro d hd; cases hd), Or.inl rfl⟩ (by unfold potCf; simp [remSize]; omega)
+      ⟨rfl, trivial, (by intro d hd; cases hd), trivial, Or.inl rfl⟩ (by unfold potCf; simp [remSize]; omega)
     refine ⟨(true, e) :: acts', by rw [a1]; rfl, ?_, ?_⟩
     · intro a ha
       rcases List.mem_cons.1 ha with rfl | h
@@ -493,13 +526,13 @@ theorem runIter_cf_root (hC : CfCtx s p snap o) {e : Entry} (he : alLookup p s.e
     cases hel : e.link with
     | true =>
       have hproc : process snap o pre { ({} : ISt) with started := true } (e.doFollow o.follow) w =
-          (none, { ({} : ISt) with started := true, deferred := [e] }, w) := by
+          (none, { ({} : ISt) with started := true, deferred := [(0, e)] }, w) := by
         rw [hC.follow, doFollow_false]
         exact process_cf_dirlink pre hC { ({} : ISt) with started := true } hed hel w
       rw [runIter_fresh_none pre stepF e F' w w _ hproc rfl]
       obtain ⟨acts', a1, a2, a3⟩ := runIter_cf_started pre gPre hpre gStep stepF hstep hC e (F' + 1)
-        { ({} : ISt) with started := true, deferred := [e] } w
-        ⟨rfl, trivial, fun d hd => by simp at hd; subst hd; exact hio, Or.inr rfl⟩
+        { ({} : ISt) with started := true, deferred := [(0, e)] } w
+        ⟨rfl, trivial, fun d hd => by simp at hd; subst hd; exact hio, ⟨rfl, trivial⟩, Or.inr rfl⟩
         (by unfold potCf; simp [remSize]; omega)
       refine ⟨acts', a1, a2, ?_⟩
       intro k
@@ -512,18 +545,18 @@ theorem runIter_cf_root (hC : CfCtx s p snap o) {e : Entry} (he : alLookup p s.e
       have hproc := process_cf_dir pre gPre hpre hC { ({} : ISt) with started := true } hio.1 hio.2 hed hel
         (by simp only [List.length_nil]; omega) w
       have hproc' : process snap o pre { ({} : ISt) with started := true } (e.doFollow o.follow) w =
-          (none, { ({} : ISt) with started := true, iters := [⟨e.path, true, cfItems s e⟩], deferred := [e] },
+          (none, { ({} : ISt) with started := true, iters := [⟨e.path, true, cfItems s e⟩], deferred := [(0, e)] },
             gPre e w) := by
         rw [hC.follow, doFollow_false]; exact hproc
       rw [runIter_fresh_none pre stepF e F' w _ _ hproc' rfl]
       have hsz := kidEntries_size hC.inv hio.1
       rw [hpath] at hsz
       obtain ⟨acts', a1, a2, a3⟩ := runIter_cf_started pre gPre hpre gStep stepF hstep hC e (F' + 1)
-        { ({} : ISt) with started := true, iters := [⟨e.path, true, cfItems s e⟩], deferred := [e] } (gPre e w)
+        { ({} : ISt) with started := true, iters := [⟨e.path, true, cfItems s e⟩], deferred := [(0, e)] } (gPre e w)
         ⟨rfl, ⟨fun y hy => by
             obtain ⟨h1, h2⟩ := itemOk_kid hC.inv hio (mem_cfItems.1 hy)
             exact ⟨h1, by rw [h2, hpath]; simp⟩, trivial⟩,
-          fun d hd => by simp at hd; subst hd; exact hio, Or.inl rfl⟩
+          fun d hd => by simp at hd; subst hd; exact hio, ⟨rfl, trivial⟩, Or.inl rfl⟩
         (by unfold potCf; simp only [remSize, itemsSize_cfItems, List.length_cons, List.length_nil]; omega)
       refine ⟨(false, e) :: acts', by rw [a1]; rfl, ?_, ?_⟩
       · intro a ha
@@ -538,7 +571,8 @@ theorem runIter_cf_root (hC : CfCtx s p snap o) {e : Entry} (he : alLookup p s.e
         unfold RemCf
         simp only [remK_cons, mem_cfItems, List.mem_cons, List.not_mem_nil, or_false, exists_eq_left]
         unfold RemK
-        simp only [List.not_mem_nil, false_and, exists_false, or_false]
+        simp only [List.not_mem_nil, false_and, exists_false, or_false, List.map_cons, List.map_nil, List.mem_cons,
+          exists_eq_left]
         constructor
         · rintro (h | h)
           · exact Or.inr h.symm
